@@ -10,6 +10,9 @@ type ErrOutside struct {
 
 func (e ErrOutside) Error() string { return "pgeval: outside evaluator: " + e.What }
 
+// OutsideEvaluator makes ErrOutside an icorpus.OutsideError.
+func (e ErrOutside) OutsideEvaluator() string { return e.What }
+
 func outside(format string, a ...any) error { return ErrOutside{What: fmt.Sprintf(format, a...)} }
 
 // RuntimeError is an error PostgreSQL itself would raise for the statement on this data (a failed cast, division by zero,
